@@ -9,6 +9,10 @@ import time
 VERIF = os.path.dirname(os.path.dirname(os.path.abspath(__file__)))
 REPO = os.environ.get('VERIF_REPO', '/repo')
 BUILD = os.path.join(VERIF, '.build')
+# Evidence and replay files under /verif describe /repo only.  A run pointed at a scratch copy
+# (VERIF_REPO=..., used by the mutation self-test) writes them under .build/scratch-out instead, so a
+# record of a deliberately broken tree can never end up in the committed evidence directory.
+OUT = VERIF if os.path.realpath(REPO) == '/repo' else os.path.join(BUILD, 'scratch-out')
 GUARD = 'bytecodealliance_wit_bindgen_verif'
 NCPU = int(os.environ.get('VERIF_JOBS', '0')) or (os.cpu_count() or 4)
 
@@ -95,7 +99,7 @@ class Report:
         self.extra = {}
         self.seed = int(os.environ.get('VERIF_SEED', '0') or 0)
         import glob
-        for f in glob.glob(os.path.join(VERIF, 'replay', pid + '-*')):
+        for f in glob.glob(os.path.join(OUT, 'replay', pid + '-*')):
             os.remove(f)
 
     def add(self, ob):
@@ -135,12 +139,12 @@ class Report:
                 else:
                     violations.append(ob)
         undecided = [ob for ob in self.obligations if ob.status in ('undecided', 'pending')]
-        os.makedirs(os.path.join(VERIF, 'replay'), exist_ok=True)
+        os.makedirs(os.path.join(OUT, 'replay'), exist_ok=True)
         lines = []
         for ob, k in known_hits:
             lines.append('KNOWN-FINDING: property=%s %s %s' % (self.pid, ob.id, k['what']))
         for ob in violations:
-            rp = os.path.join(VERIF, 'replay', '%s-%s.txt' % (self.pid, re.sub(r'[^A-Za-z0-9_.-]+', '_', ob.id)))
+            rp = os.path.join(OUT, 'replay', '%s-%s.txt' % (self.pid, re.sub(r'[^A-Za-z0-9_.-]+', '_', ob.id)))
             with open(rp, 'w') as f:
                 f.write('property: %s\nobligation: %s\nkind: %s\nfunction: %s\nbackend: %s\n' %
                         (self.pid, ob.id, ob.kind, ob.function, ob.backend))
@@ -167,9 +171,14 @@ class Report:
             return EXIT_UNDECIDED
         proved = [o for o in self.obligations if o.status == 'discharged' and not o.bounded and o.kind != 'vacuity']
         bounded = [o for o in self.obligations if o.status == 'discharged' and o.bounded]
-        print('OK property=%s tier=%s obligations=%d discharged=%d bounded=%d known-findings=%d wall=%.1fs' % (
-            self.pid, self.tier, len(self.obligations), len(proved) + len(bounded), len(bounded), len(known_hits),
-            time.time() - self.t0))
+        # same counting rule as the evidence file: vacuity guards (checks that MUST be rejected) are not
+        # obligations of the property and are reported on their own
+        nobs = len([o for o in self.obligations if o.kind != 'vacuity'])
+        guards = [o for o in self.obligations if o.kind == 'vacuity']
+        print('OK property=%s tier=%s obligations=%d discharged=%d bounded=%d known-findings=%d '
+              'vacuity-guards=%d/%d wall=%.1fs' % (
+                  self.pid, self.tier, nobs, len(proved) + len(bounded), len(bounded), len(known_hits),
+                  len([o for o in guards if o.status == 'discharged']), len(guards), time.time() - self.t0))
         return EXIT_OK
 
     def _write_evidence(self, violations, known_hits, undecided):
@@ -202,18 +211,24 @@ class Report:
             'samples': self.samples[:12] or [o.as_dict() for o in obs[:5]],
         }
         cov.update(self.extra)
+        level = self.level
+        if known_hits and level == 'proof':
+            # a listed finding means the property is NOT proved on this tree; do not file the run as a proof
+            level = 'other'
+            cov['explanation'] = ('known findings present (%d): the remaining obligations were discharged but the '
+                                  'property as a whole is not proved. ' % len(known_hits)) + cov['explanation']
         ev = {
             'property_id': self.pid,
             'tier': self.tier,
             'seed': self.seed,
-            'level': self.level,
+            'level': level,
             'coverage': cov,
             'assumptions': self.assumptions,
             'wall_s': round(time.time() - self.t0, 2),
             'violations': len(violations),
         }
-        os.makedirs(os.path.join(VERIF, 'evidence'), exist_ok=True)
-        with open(os.path.join(VERIF, 'evidence', self.pid + '.json'), 'w') as f:
+        os.makedirs(os.path.join(OUT, 'evidence'), exist_ok=True)
+        with open(os.path.join(OUT, 'evidence', self.pid + '.json'), 'w') as f:
             json.dump(ev, f, indent=1)
             f.write('\n')
 
